@@ -94,12 +94,28 @@ func prepare(def *backendDef, root string) (*runner, error) {
 	if err != nil {
 		return nil, err
 	}
+	if def.MultiZip {
+		if h.PackOp < 0 || h.MaxChunk == 0 {
+			return nil, fmt.Errorf("%s: the history has no file to pack", def.Name)
+		}
+		// Every zip can hold the largest chunk with 40 KiB to spare for the schema blobs, the manifest
+		// and the zip structures (so a zip always makes progress), but not the whole file.
+		def.MaxZip = h.MaxChunk + 40<<10
+		if def.PackOpOnly {
+			def.FromOp, def.ToOp = h.PackOp, h.PackOp+1
+		}
+	}
 	rn := &runner{def: def, hist: h, root: root, seed: seed, perSig: map[string]int{}}
 	_, lr, err := rn.runOnce(nil)
 	if err != nil {
 		return nil, err
 	}
 	rn.learn = lr
+	if def.MultiZip {
+		if z := len(rn.zipUploads(h.PackOp)); z < 2 {
+			return nil, fmt.Errorf("%s: the file was packed into %d zip(s) with a zip size limit of %d bytes; a multi-zip pack was intended", def.Name, z, def.MaxZip)
+		}
+	}
 	return rn, nil
 }
 
@@ -151,6 +167,25 @@ func childEnum() {
 		emit(record{T: "learn", Backend: name, Evals: rn.learn.Evals,
 			Counts: map[string]int{"history_ops": len(rn.hist.Ops), "lower_calls_fault_free": int(total), "sites": len(sites)},
 			Sample: map[string]any{"backend": name, "spec": spec, "history": ops, "lower_calls_per_op": rn.learn.N, "sites": len(sites)}})
+		if def.MultiZip {
+			emit(record{T: "info", Backend: name, Counts: map[string]int{"multi_zip_pack_zips": len(rn.zipUploads(rn.hist.PackOp)), "multi_zip_pack_zip_size_limit": def.MaxZip}})
+		}
+	}
+	// Operation kinds whose remaining sites the parent asked to leave out: this chain already saw
+	// hangSkipAfter hangs at sites of that kind (every further one would cost a full watchdog
+	// period and add nothing to the verdicts already reported).  Counted, and visible in the evidence.
+	skipKinds := map[string]bool{}
+	for _, k := range strings.Split(os.Getenv("VERIF_C13_SKIPKINDS"), ",") {
+		if k != "" {
+			skipKinds[k] = true
+		}
+	}
+	skipped := 0
+	flushSkipped := func() {
+		if skipped > 0 {
+			emit(record{T: "info", Backend: name, Counts: map[string]int{"sites_skipped_after_repeated_hangs": skipped}})
+			skipped = 0
+		}
 	}
 	errSites, done := 0, 0
 	for idx := start; idx < len(sites); idx++ {
@@ -162,15 +197,22 @@ func childEnum() {
 			continue
 		}
 		if max > 0 && done >= max {
+			flushSkipped()
 			fmt.Printf("@@NEXT %d\n", idx)
 			return
+		}
+		if skipKinds[rn.hist.Ops[st.Op].Kind] {
+			skipped++
+			continue
 		}
 		// A failing batched stat may leak a slot of a package-level gate (finding #1): recycle the
 		// process well before a gate could fill up, so that one defect does not mask the others.
 		if errSites >= 8 {
+			flushSkipped()
 			fmt.Printf("@@NEXT %d\n", idx)
 			return
 		}
+		flushSkipped()
 		fmt.Printf("@@SITE %d\n", idx)
 		res, _, err := rn.runOnce(st)
 		done++
@@ -184,12 +226,29 @@ func childEnum() {
 		}
 		if res.hung {
 			// goroutines are stuck inside the store: continue in a fresh process
+			flushSkipped()
 			fmt.Printf("@@NEXT %d\n", idx+1)
 			return
 		}
 	}
+	flushSkipped()
 	emit(record{T: "info", Backend: name, Counts: map[string]int{"goroutines_in_perkeep_at_exit": perkeepGoroutines()}})
 	fmt.Println("@@DONE")
+}
+
+// zipUploads returns the offsets (inside operation op's lower calls, fault-free run) of the
+// uploads of a zip to blobpacked's large store.
+func (rn *runner) zipUploads(op int) []int64 {
+	var offs []int64
+	if rn.learn == nil || op < 0 || op >= len(rn.learn.Calls) {
+		return nil
+	}
+	for j, cl := range rn.learn.Calls[op] {
+		if cl.Layer == "bp-large" && cl.Op == "ReceiveBlob" {
+			offs = append(offs, int64(j))
+		}
+	}
+	return offs
 }
 
 // perkeepGoroutines counts goroutines still inside perkeep frames (reported, not judged).
@@ -261,6 +320,18 @@ func (rn *runner) emitSite(st *site, res siteResult) {
 			}
 			if strings.HasSuffix(d.Layer, "-meta") || strings.HasSuffix(d.Layer, "-index") {
 				note("categories", "fault-in-sql-index-call")
+			}
+		}
+		if def.MultiZip && st.Op == h.PackOp && res.zipsBefore >= 1 && res.zipsBefore < len(rn.zipUploads(st.Op)) {
+			// the pack is interrupted after a valid first zip and before its last zip
+			note("categories", "fault-between-zips-of-multi-zip-pack")
+			if d.Layer == "bp-large" && d.Op == "ReceiveBlob" {
+				note("categories", "fault-at-upload-of-later-zip-of-multi-zip-pack")
+				for _, r := range res.recovered {
+					if r == "full" && d.Mode != "error-after-effect" {
+						note("categories", "full-rebuild-after-interrupted-multi-zip-pack")
+					}
+				}
 			}
 		}
 		if def.Long && o.Kind == "receive" && (d.Index-res.base >= 4 || d.Op == "RemoveBlobs") {
